@@ -348,7 +348,9 @@ def orphan_rule(ctx):
     for i, st in enumerate(f.node.body):
         if isinstance(st, ast.If) and "orphanNodes" in norm_text(st.test) and idx_orphan is None:
             body = norm_text(st)
-            if "diags" in body or "diag" in body:
+            names = {n.id for n in ast.walk(st.test) if isinstance(n, ast.Name)} - {"self", "len"}
+            guarded_only_by_orphans = not names and not isinstance(st.test, ast.BoolOp)
+            if ("diags" in body or "diag" in body) and guarded_only_by_orphans:
                 idx_orphan = i
         if first_ret is None and any(isinstance(n, ast.Return) for n in ast.walk(st)):
             first_ret = i
